@@ -324,6 +324,7 @@ Proof.
         unfold add_gate. rewrite K, add_meas_fresh by assumption.
         simpl. now rewrite SC.
       * rewrite (fold_one g (r1 :: L') st r0) by assumption. cbn [obind].
+        generalize (block_of g (r1 :: L')). intros B.
         cbn [s_meas]. rewrite existsb_app. simpl. rewrite Nat.eqb_refl, orb_true_r, andb_false_r.
         rewrite rev_app_distr. simpl. now rewrite SC.
   - (* channel already present in the input circuit *)
@@ -336,3 +337,311 @@ Proof.
     rewrite <- app_assoc, app_nil_r. simpl. now rewrite SC.
 Qed.
 
+
+(* ------------------------------------------------------------------ whole circuit *)
+Lemma terminal_head g c :
+  terminal (g :: c) = true ->
+  (g_kind g = KM -> forall h, In h c ->
+     intersects (g_qubits g) (g_qubits h) = false /\ (g_kind h = KM -> g_reg g <> g_reg h))
+  /\ terminal c = true.
+Proof.
+  simpl. intros H. apply andb_true_iff in H as [H1 H2]. split; [|exact H2].
+  intros K h Hh. rewrite K in H1.
+  pose proof (proj1 (forallb_forall _ _) H1 h Hh) as P. cbv beta in P.
+  apply andb_true_iff in P as [P1 P2]. apply negb_true_iff in P1. split; [exact P1|].
+  intros Kh E. rewrite Kh in P2. apply negb_true_iff in P2. apply Nat.eqb_neq in P2. congruence.
+Qed.
+
+Lemma run_clean rules coll0 : forall c st,
+  s_coll st = coll0 ->
+  (forall h, In h c -> away st (g_qubits h)) ->
+  (forall h, In h c -> g_kind h = KM -> fresh_reg st h) ->
+  forallb (clean_gate rules coll0) c = true -> terminal c = true ->
+  fold_left (step rules) c (Some st) =
+    Some (mkSt (rev (spec_apply rules c) ++ s_queue st) (s_meas st ++ filter isKM c) coll0).
+Proof.
+  induction c as [|g c IH]; intros st SC A FR CG T.
+  - simpl. rewrite app_nil_r. destruct st; simpl in *. now subst.
+  - simpl in CG. apply andb_true_iff in CG as [CG1 CG2].
+    apply terminal_head in T as [T1 T2].
+    simpl fold_left.
+    rewrite (step_clean rules coll0 g st CG1 SC (A g (or_introl eq_refl)) (FR g (or_introl eq_refl))).
+    rewrite IH; try assumption; try reflexivity.
+    + cbn [s_queue s_meas]. f_equal. f_equal.
+      * unfold spec_apply. simpl. rewrite rev_app_distr, <- app_assoc. reflexivity.
+      * rewrite <- app_assoc. f_equal. simpl. destruct (isKM g); reflexivity.
+    + intros h Hh m Hm. cbn [s_meas] in Hm. apply in_app_or in Hm as [Hm|Hm].
+      * apply (A h (or_intror Hh) m Hm).
+      * unfold isKM in Hm. destruct (g_kind g) eqn:K; [destruct Hm | | destruct Hm].
+        destruct Hm as [<-|[]]. now apply (T1 eq_refl h Hh).
+    + intros h Hh Kh m Hm. cbn [s_meas] in Hm. apply in_app_or in Hm as [Hm|Hm].
+      * apply (FR h (or_intror Hh) Kh m Hm).
+      * unfold isKM in Hm. destruct (g_kind g) eqn:K; [destruct Hm | | destruct Hm].
+        destruct Hm as [<-|[]]. now apply (T1 eq_refl h Hh).
+Qed.
+
+Theorem apply_st_clean rules coll0 c :
+  clean rules coll0 c = true ->
+  apply_st rules coll0 c = Some (mkSt (rev (spec_apply rules c)) (filter isKM c) coll0).
+Proof.
+  unfold clean, apply_st. intros H. apply andb_true_iff in H as [H1 H2].
+  rewrite (run_clean rules coll0 c (mkSt [] [] coll0)); try assumption; try reflexivity.
+  - simpl. now rewrite app_nil_r.
+  - intros h _ m [].
+  - intros h _ _ m [].
+Qed.
+
+(* exactness on clean inputs: output = what the rules prescribe, block by block; input not mutated *)
+Lemma apply_exact_clean rules coll0 c :
+  clean rules coll0 c = true ->
+  apply rules coll0 c = Some (spec_apply rules c) /\
+  option_map s_coll (apply_st rules coll0 c) = Some coll0.
+Proof.
+  intros H. unfold apply. rewrite (apply_st_clean _ _ _ H). simpl. now rewrite rev_involutive.
+Qed.
+
+Lemma apply_skeleton_clean rules coll0 c :
+  clean rules coll0 c = true -> option_map erase (apply rules coll0 c) = Some c.
+Proof.
+  intros H. destruct (apply_exact_clean _ _ _ H) as [E _]. rewrite E. simpl. now rewrite erase_spec_apply.
+Qed.
+
+(* ------------------------------------------------------------------ unconditional: apply only ever repeats or drops input gates *)
+Definition emits (g : gate) (st st' : cstate) : Prop :=
+  exists its k, s_queue st' = its ++ s_queue st /\ erase (rev its) = repeat g k.
+
+Lemma emits_refl g st : emits g st st.
+Proof. exists [], 0. now split. Qed.
+
+Lemma repeat_plus {A} (x : A) a b : repeat x a ++ repeat x b = repeat x (a + b).
+Proof. induction a; simpl; [reflexivity | now rewrite IHa]. Qed.
+
+Lemma emits_trans g a b c : emits g a b -> emits g b c -> emits g a c.
+Proof.
+  intros [i1 [k1 [Q1 E1]]] [i2 [k2 [Q2 E2]]]. exists (i2 ++ i1), (k1 + k2). split.
+  - now rewrite Q2, Q1, app_assoc.
+  - now rewrite rev_app_distr, erase_app, E1, E2, repeat_plus.
+Qed.
+
+Lemma emits_add_gate g st st' : add_gate g st = Some st' -> emits g st st'.
+Proof.
+  unfold add_gate, add_meas, add_plain. intros H.
+  exists [Orig g], 1. split; [|reflexivity].
+  destruct (g_kind g);
+    try (injection H as <-; reflexivity).
+  destruct (existsb _ _); [discriminate|].
+  destruct (mem _ _); injection H as <-; reflexivity.
+Qed.
+
+Lemma emits_add_items g its : forall st, erase its = [] -> emits g st (add_items its st).
+Proof.
+  unfold add_items. induction its as [|it its IH]; intros st E; simpl; [apply emits_refl|].
+  assert (E1 : erase [it] = [] /\ erase its = []).
+  { change (it :: its) with ([it] ++ its) in E. rewrite erase_app in E. now apply app_eq_nil in E. }
+  destruct E1 as [E1 E2].
+  eapply emits_trans; [| apply IH; exact E2].
+  exists [it], 0. split; [reflexivity | exact E1].
+Qed.
+
+Lemma emits_rule_step g r st st' :
+  rule_step g (Some st) r = Some st' -> emits g st st'.
+Proof.
+  unfold rule_step. destruct (fires r g); [|intros H; injection H as <-; apply emits_refl].
+  simpl. destruct (is_readout (r_err r)).
+  - intros H. apply emits_add_gate in H. eapply emits_trans; [|exact H]. apply emits_add_items, erase_chans.
+  - intros H. injection H as <-. apply emits_add_items, erase_chans.
+Qed.
+
+Lemma rule_step_none g r : rule_step g None r = None.
+Proof. unfold rule_step. now destruct (fires r g). Qed.
+
+Lemma fold_rule_none g L : fold_left (rule_step g) L None = None.
+Proof. induction L; simpl; [reflexivity | now rewrite rule_step_none]. Qed.
+
+Lemma emits_fold g : forall L st st',
+  fold_left (rule_step g) L (Some st) = Some st' -> emits g st st'.
+Proof.
+  induction L as [|r L IH]; intros st st' H; simpl in H.
+  - injection H as <-. apply emits_refl.
+  - destruct (rule_step g (Some st) r) as [s1|] eqn:E.
+    + apply emits_rule_step in E. apply IH in H. eapply emits_trans; eassumption.
+    + now rewrite fold_rule_none in H.
+Qed.
+
+Lemma emits_step rules g st st' : step rules (Some st) g = Some st' -> emits g st st'.
+Proof.
+  unfold step. set (L := lookup rules g).
+  assert (S1 : forall s1, (if existsb (fun r => is_readout (r_err r)) L then Some st else obind (Some st) (add_gate g)) = Some s1 ->
+                          emits g st s1).
+  { intros s1. destruct (existsb _ L); simpl.
+    - intros H. injection H as <-. apply emits_refl.
+    - apply emits_add_gate. }
+  destruct (if existsb _ L then Some st else obind (Some st) (add_gate g)) as [s1|] eqn:E1.
+  2:{ rewrite fold_rule_none. destruct (g_kind g); discriminate. }
+  specialize (S1 s1 eq_refl).
+  destruct (fold_left (rule_step g) L (Some s1)) as [s2|] eqn:E2.
+  2:{ destruct (g_kind g); discriminate. }
+  apply emits_fold in E2.
+  assert (S2 : emits g st s2) by (eapply emits_trans; eassumption).
+  destruct (g_kind g); try (intros H; injection H as <-; exact S2).
+  simpl. destruct (_ && _).
+  - intros H. eapply emits_trans; [exact S2 | now apply emits_add_gate].
+  - intros H. injection H as <-. exact S2.
+Qed.
+
+Lemma step_none rules g : step rules None g = None.
+Proof.
+  unfold step. destruct (existsb _ _); simpl; rewrite fold_rule_none; now destruct (g_kind g).
+Qed.
+
+Lemma fold_step_none rules c : fold_left (step rules) c None = None.
+Proof. induction c; simpl; [reflexivity | now rewrite step_none]. Qed.
+
+Fixpoint expand (c : list gate) (ks : list nat) : list gate :=
+  match c, ks with
+  | g :: c', k :: ks' => repeat g k ++ expand c' ks'
+  | _, _ => []
+  end.
+
+Lemma apply_repeats_gen rules : forall c st st',
+  fold_left (step rules) c (Some st) = Some st' ->
+  exists its ks, s_queue st' = its ++ s_queue st /\ length ks = length c /\ erase (rev its) = expand c ks.
+Proof.
+  induction c as [|g c IH]; intros st st' H; simpl in H.
+  - injection H as <-. exists [], []. repeat split.
+  - destruct (step rules (Some st) g) as [s1|] eqn:E; [|now rewrite fold_step_none in H].
+    apply emits_step in E as [i1 [k [Q1 E1]]].
+    apply IH in H as [i2 [ks [Q2 [Lk E2]]]].
+    exists (i2 ++ i1), (k :: ks). repeat split.
+    + now rewrite Q2, Q1, app_assoc.
+    + simpl. now rewrite Lk.
+    + rewrite rev_app_distr, erase_app, E1, E2. reflexivity.
+Qed.
+
+Theorem apply_repeats rules coll0 c out :
+  apply rules coll0 c = Some out ->
+  exists ks, length ks = length c /\ erase out = expand c ks.
+Proof.
+  unfold apply, apply_st. destruct (fold_left _ _ _) as [s|] eqn:E; [|discriminate].
+  intros H. injection H as <-.
+  apply apply_repeats_gen in E as [its [ks [Q [Lk E]]]].
+  exists ks. split; [exact Lk|]. simpl in Q. rewrite app_nil_r in Q. now rewrite Q.
+Qed.
+
+(* every created channel is on a subset of the qubits of some input gate (custom channels excepted) *)
+
+(* ------------------------------------------------------------------ refutations of the full-strength statements (faithful model) *)
+Definition gH := mkGate 0 0 KU [0] 0.
+Definition gM01 := mkGate 1 1 KM [0; 1] 0.
+Definition two_readout : list rule :=
+  [mkRule (Some 1) [] (EReadout 0) (Some [0]); mkRule (Some 1) [] (EReadout 0) (Some [1])].
+
+Lemma two_readout_output :
+  show_st (apply_st two_readout [] [gH; gM01]) =
+  Some ([(0, [0], 0); (7, [0], 0); (0, [1], 0); (7, [1], 0); (0, [1], 0); (0, [1], 0)], [], [1]).
+Proof. vm_compute. reflexivity. Qed.
+
+Lemma skeleton_refuted_two_readout :
+  option_map erase (apply two_readout [] [gH; gM01]) <> Some [gH; gM01].
+Proof. vm_compute. discriminate. Qed.
+
+Lemma mutation_refuted_two_readout :
+  option_map s_coll (apply_st two_readout [] [gH; gM01]) <> Some [].
+Proof. vm_compute. discriminate. Qed.
+
+(* collapsing measurement, EMPTY noise model *)
+Definition gM0 := mkGate 0 1 KM [0] 0.
+Definition gH1 := mkGate 1 0 KU [0] 0.
+Definition gM2 := mkGate 2 1 KM [0] 1.
+Lemma skeleton_refuted_empty_model :
+  option_map erase (apply [] [0] [gM0; gH1; gM2]) = Some [gM0; gM0; gH1; gM2].
+Proof. vm_compute. reflexivity. Qed.
+
+(* readout rule naming the measured qubits with a false condition: measurement dropped *)
+Lemma skeleton_refuted_dropped :
+  option_map erase (apply [mkRule (Some 1) [fun _ => false] (EReadout 0) (Some [0])] [] [gH; mkGate 1 1 KM [0] 0])
+  = Some [gH].
+Proof. vm_compute. reflexivity. Qed.
+
+(* ------------------------------------------------------------------ with_pauli_noise *)
+Lemma combine_map_flat {A B} (f : A -> list B) (h : A -> B) (c : list A) :
+  flat_map (fun gn => h (fst gn) :: snd gn) (combine c (map f c)) = flat_map (fun g => h g :: f g) c.
+Proof. induction c as [|g c IH]; [reflexivity|]. simpl. now rewrite IH. Qed.
+
+Lemma with_pauli_noise_spec nq m c out :
+  with_pauli_noise nq m c = Some out ->
+  exists m', check_noise_map nq m = Some m' /\ out = flat_map (pauli_block m') c.
+Proof.
+  unfold with_pauli_noise. destruct (check_noise_map nq m) as [m'|]; [|discriminate]. simpl.
+  destruct (existsb _ c); [discriminate|]. intros H. injection H as <-.
+  exists m'. split; [reflexivity|].
+  rewrite (combine_map_flat (fun g => tl (pauli_block m' g)) Orig). reflexivity.
+Qed.
+
+Lemma erase_pauli_block m g : erase (pauli_block m g) = [g].
+Proof.
+  unfold pauli_block. simpl. f_equal. destruct (g_kind g); try reflexivity;
+  induction (g_qubits g) as [|q l IH]; simpl; try reflexivity;
+  rewrite erase_app, IH, app_nil_r; destruct (assoc q m) as [[o ps]|]; try reflexivity;
+  destruct (pos_sum ps); reflexivity.
+Qed.
+
+Lemma pauli_block_local m g it :
+  In it (pauli_block m g) ->
+  it = Orig g \/ exists q o ps, it = Ins (mkChan CPauli [q] o) /\ In q (g_qubits g) /\ g_kind g <> KM
+                                /\ assoc q m = Some (o, ps) /\ pos_sum ps = true.
+Proof.
+  unfold pauli_block. intros [<-|H]; [now left|]. right.
+  assert (G : In it (flat_map (fun q => match assoc q m with
+                                        | Some (o, ps) => if pos_sum ps then [Ins (mkChan CPauli [q] o)] else []
+                                        | None => [] end) (g_qubits g)) -> g_kind g <> KM ->
+              exists q o ps, it = Ins (mkChan CPauli [q] o) /\ In q (g_qubits g) /\ g_kind g <> KM
+                             /\ assoc q m = Some (o, ps) /\ pos_sum ps = true).
+  { intros H0 NK. apply in_flat_map in H0 as [q [Hq H0]].
+    destruct (assoc q m) as [[o ps]|] eqn:E; [|destruct H0].
+    destruct (pos_sum ps) eqn:P; [|destruct H0].
+    destruct H0 as [<-|[]]. exists q, o, ps. repeat split; assumption. }
+  destruct (g_kind g) eqn:K.
+  - apply G; [exact H | discriminate].
+  - destruct H.
+  - apply G; [exact H | discriminate].
+Qed.
+
+Lemma pauli_noise_correct nq m c out :
+  with_pauli_noise nq m c = Some out ->
+  exists m', check_noise_map nq m = Some m' /\ out = flat_map (pauli_block m') c /\ erase out = c.
+Proof.
+  intros H. apply with_pauli_noise_spec in H as [m' [H1 ->]]. exists m'. repeat split; try assumption.
+  induction c as [|g c IH]; [reflexivity|].
+  change (flat_map (pauli_block m') (g :: c)) with (pauli_block m' g ++ flat_map (pauli_block m') c).
+  rewrite erase_app, erase_pauli_block, IH. reflexivity.
+Qed.
+
+(* zero strength: every row sums to zero -> nothing is inserted *)
+Lemma pauli_block_zero m g :
+  (forall q o ps, assoc q m = Some (o, ps) -> pos_sum ps = false) -> pauli_block m g = [Orig g].
+Proof.
+  intros Z. unfold pauli_block. f_equal. destruct (g_kind g); try reflexivity;
+  induction (g_qubits g) as [|q l IH]; simpl; try reflexivity; rewrite IH;
+  destruct (assoc q m) as [[o ps]|] eqn:E; try reflexivity; now rewrite (Z q o ps E).
+Qed.
+
+Lemma pauli_zero_strength nq m c out :
+  with_pauli_noise nq m c = Some out ->
+  (forall m' q o ps, check_noise_map nq m = Some m' -> assoc q m' = Some (o, ps) -> pos_sum ps = false) ->
+  out = map Orig c.
+Proof.
+  intros H Z. apply with_pauli_noise_spec in H as [m' [H1 ->]].
+  induction c as [|g c IH]; [reflexivity|].
+  change (flat_map (pauli_block m') (g :: c)) with (pauli_block m' g ++ flat_map (pauli_block m') c).
+  rewrite pauli_block_zero by (intros q o ps; apply (Z m' q o ps H1)). simpl. now rewrite IH.
+Qed.
+
+Local Open Scope Q_scope.
+Lemma pos_sum_zero ps : Forall (fun p => p == 0) ps -> pos_sum ps = false.
+Proof.
+  intros H. unfold pos_sum. apply negb_false_iff. apply Qle_bool_iff.
+  assert (E : qsum ps == 0).
+  { induction H as [|p ps Hp _ IH]; simpl; [reflexivity|]. rewrite Hp, IH. reflexivity. }
+  rewrite E. apply Qle_refl.
+Qed.
